@@ -393,10 +393,12 @@ def stricter_rejection(op, bs):
     return None
 
 
-def oracle(run, spec, td, op, impl, raw, site="shape_op"):
+def oracle(run, spec, td, op, impl, raw, site="shape_op", fp_prefix=""):
     """the property itself on the real code.  `impl`/`raw` come from run_impl.  Returns True if ok."""
     _, bs, names, entries = spec
     case = {"op": list(op), "td": spec_sx(spec)}
+    if fp_prefix:
+        case["class"] = fp_prefix.rstrip(":")
     idx = torch.arange(numel(bs), dtype=torch.int64).reshape(bs)
     try:
         ref = call(idx, op)
@@ -406,7 +408,7 @@ def oracle(run, spec, td, op, impl, raw, site="shape_op"):
         terr = None
     except Exception as e:  # noqa: BLE001
         terr = e
-    opn = op[0]
+    opn = fp_prefix + op[0]
     if impl[0] == "err":
         if impl[1] == "timeout":
             run.oracle_fail(site, case, "does not terminate", f"{opn}:timeout")
@@ -540,7 +542,8 @@ def resize_dim(spec, d, size):
 def gen_ext(rng):
     """one case of the ops the model does not cover: (kind, specs, args)"""
     kind = rng.choice(["repeat", "repeat_interleave", "gather", "masked_select", "stack", "cat", "stack_out", "cat_out"])
-    rank = rng.choice([0, 1, 2, 2, 3, 3, 4]) if kind in ("stack", "stack_out", "repeat") else rng.choice([1, 2, 2, 3, 3, 4])
+    # (repeat on a 0-d batch would be `td.repeat()` with no repeats: torch's varargs API has no such spelling)
+    rank = rng.choice([0, 1, 2, 2, 3, 3, 4]) if kind in ("stack", "stack_out") else rng.choice([1, 2, 2, 3, 3, 4])
     bs = tuple(rng.choice(DIMS if rng.random() < 0.35 else (1, 2, 3)) for _ in range(rank))
     spec = gen_tree(rng, bs, named=rng.random() < 0.45, allow_empty=False)
     n = rank
@@ -678,3 +681,123 @@ def check_ext_entries(res, specs, n, kind, args, ref, prefix):
             if bad:
                 return bad
     return None
+
+
+# --------------------------------------------------------------------------- extended domain: other container kinds
+_TC = None
+
+
+def tc_class():
+    global _TC
+    if _TC is None:
+        from typing import Any
+        from tensordict import tensorclass
+
+        @tensorclass
+        class C02TC:
+            x0: Any = None
+            x1: Any = None
+            x2: Any = None
+            n: Any = None
+        _TC = C02TC
+    return _TC
+
+
+def strip_names(spec):
+    if spec[0] == "leaf":
+        return spec
+    return ("node", spec[1], None, [(k, strip_names(e)) for k, e in spec[3]])
+
+
+def build_container(spec, kind, rng):
+    """(container, spec it represents) for kind in {'lazy', 'tc'}; None if the kind does not apply"""
+    if kind == "tc":
+        td = build(spec)
+        return tc_class()._from_tensordict(td), spec
+    bs = spec[1]
+    dims = [i for i, d in enumerate(bs) if d >= 1]
+    if not dims:
+        return None, None
+    from tensordict import LazyStackedTensorDict
+    sp = strip_names(spec)
+    td = build(sp)
+    d = rng.choice(dims)
+    cont = LazyStackedTensorDict.lazy_stack(list(td.unbind(d)), d)
+    cont._c02_stack_dim = d
+    return cont, sp
+
+
+def densify(x):
+    from tensordict import LazyStackedTensorDict, TensorDict
+    if isinstance(x, (tuple, list)):
+        return [densify(y) for y in x]
+    if hasattr(x, "_tensordict") and not isinstance(x, TensorDict):
+        x = x._tensordict
+    if isinstance(x, LazyStackedTensorDict):
+        return x.contiguous()
+    return x
+
+
+LAZY_OPS = ("permute", "transpose", "squeeze", "unsqueeze", "unbind", "split", "chunk", "splitlist")
+
+
+def run_container(run, spec, op, kind, rng, malformed=False):
+    """the same case on another container kind (oracle only).  A tensorclass delegates to the TensorDict code (same site,
+    so the same known findings apply).  Lazy stacks have their own implementation (_lazy.py): only the ops listed in
+    LAZY_OPS with well-formed arguments are judged; the view family (view/reshape/flatten/unflatten/expand) of lazy stacks
+    is known to be unreliable around size-0/1 dims (see REPORT_C02.md) and is not part of this check."""
+    if kind == "lazy" and (malformed or op[0] not in LAZY_OPS):
+        return
+    cont, sp = build_container(spec, kind, rng)
+    if cont is None:
+        return
+    site = "shape_op" if kind == "tc" else "shape_op_lazy"
+    try:
+        with time_limit(5.0):
+            r = call(cont, op)
+    except Exception as e:  # noqa: BLE001
+        impl, raw = ["err", err_class(e)], e
+        # a container kind that does not support an op / argument may refuse it: only wrong *results* are judged,
+        # and non-termination
+        if impl[1] == "timeout":
+            run.oracle_fail(site, {"op": list(op), "td": spec_sx(sp), "container": kind}, "does not terminate", f"{op[0]}:timeout")
+        elif kind == "lazy" and op[0] == "transpose" and isinstance(e, ValueError):
+            # a well-formed transpose refused by the lazy stack: the non-adjacent stack-dim branch calls the members with a wrong dim
+            n = len(sp[1]); sd = cont._c02_stack_dim
+            a, b = (op[1] + n if op[1] < 0 else op[1]), (op[2] + n if op[2] < 0 else op[2])
+            if n and 0 <= a < n and 0 <= b < n and sd in (a, b) and abs(a - b) >= 2:
+                run.oracle_fail(site, {"op": list(op), "td": spec_sx(sp), "container": kind, "stack_dim": sd},
+                                f"lazy stack refuses a valid transpose: {str(e)[:100]}", "stackdim-nonadjacent:transpose:rejects-torch-accepts:ValueError")
+            else:
+                run.count(site + ".refused", op[0])
+        else:
+            run.count(site + ".refused", op[0])
+        return
+    case = {"op": list(op), "td": spec_sx(sp), "container": kind}
+    prefix = ""
+    if kind == "lazy":
+        n = len(sp[1])
+        sd = cont._c02_stack_dim
+        case["stack_dim"] = sd
+        if op[0] == "transpose":
+            a, b = (op[1] + n if op[1] < 0 else op[1]), (op[2] + n if op[2] < 0 else op[2])
+            if sd in (a, b) and abs(a - b) >= 2:
+                prefix = "stackdim-nonadjacent:"
+        if op[0] in ("split", "splitlist", "chunk"):
+            dd = op[-1] + n if op[-1] < 0 else op[-1]
+            if dd == sd:
+                prefix = "along-stackdim:"
+    try:
+        if r is cont:
+            impl, raw = ["self"], densify(cont)
+            oracle(run, sp, raw, op, impl, raw, site=site, fp_prefix=prefix)
+            return
+        dense = densify(r)
+    except Exception as e:  # noqa: BLE001
+        run.oracle_fail(site, case, f"the result cannot be read back (contiguous()/names/items): {type(e).__name__}: {str(e)[:100]}",
+                        f"{prefix}{op[0]}:unreadable-result:{type(e).__name__}")
+        return
+    if isinstance(dense, list):
+        oracle(run, sp, None, op, ["oks"], dense, site=site, fp_prefix=prefix)
+    else:
+        oracle(run, sp, None, op, ["ok"], dense, site=site, fp_prefix=prefix)
